@@ -417,9 +417,13 @@ C17_ListMatchesBinding(s) ==
     /\ \A i \in 1..Len(s.bindings) : Has(s.accLists, "did", s.bindings[i].did)
 C17_SidPayAddrBound(s, cfg) ==
     \A i \in 1..Len(s.pay) : ~IsKeyDid(cfg, s.pay[i].did) => s.pay[i].a \in BindingsOf(s, s.pay[i].did)
-C17_KidInjective(s) ==
+C17_KidInjective(s, cfg) ==
     /\ NoDup([i \in 1..Len(s.kids) |-> s.kids[i].a]) /\ NoDup([i \in 1..Len(s.kids) |-> s.kids[i].did])
     /\ NoDup([i \in 1..Len(s.pay) |-> s.pay[i].did])
+    \* an address is linked to at most one key DID: no two key DIDs are paid from the same address, and the address's one
+    \* link names the key DID it pays for
+    /\ \A i, j \in 1..Len(s.pay) : (i < j /\ IsKeyDid(cfg, s.pay[i].did) /\ IsKeyDid(cfg, s.pay[j].did)) => s.pay[i].a # s.pay[j].a
+    /\ \A i \in 1..Len(s.kids) : HasPay(s, s.kids[i].did) /\ PayOf(s, s.kids[i].did) = s.kids[i].a
 NewBindings(x) == {b \in Rng(x.post.bindings) : ~(b \in Rng(x.pre.bindings))}
 GoneBindings(x) == {b \in Rng(x.pre.bindings) : ~(b \in Rng(x.post.bindings))}
 C17_BindingProven(x) ==
